@@ -85,6 +85,9 @@ class SV:
         raise Unsupported("truth value of a symbolic scalar taken outside the interpreter")
 
 
+NAN = z3.Real("NaN!token")
+
+
 def term(x):
     """z3 term of a Python / symbolic scalar."""
     import numpy as np
@@ -98,8 +101,10 @@ def term(x):
         return z3.IntVal(int(x))
     if isinstance(x, (float, np.floating)):
         f = float(x)
-        if f != f or f in (float("inf"), float("-inf")):
-            raise Unsupported("nan/inf constant in real-arithmetic mode")
+        if f != f:
+            return NAN          # a distinguished token: data-flow of NaN padding only (no IEEE semantics in real mode)
+        if f in (float("inf"), float("-inf")):
+            raise Unsupported("inf constant in real-arithmetic mode")
         import fractions
         fr = fractions.Fraction(f)
         return z3.RealVal(f"{fr.numerator}/{fr.denominator}")
